@@ -91,9 +91,46 @@ def random_program(rnd):
     live = []
     for _ in range(rnd.randint(1, 4)):
         P.main += gen_ops(rnd, P, 0, live, False)
+        if rnd.random() < 0.1:
+            P.main.append("sigintr %d" % rnd.choice([1, 2]))   # a signal handler asks the loop to stop while it is inside poll
         P.main.append(rnd.choice(["run", "run", "run", "spin"]) if rnd.random() < 0.9 else "run")
     P.main += ["run"] * rnd.randint(1, 3)
     return P
+
+
+def signal_programs():
+    """events_interrupt() called from a signal handler while the loop is inside the first poll of a run (as poll returns its answer,
+    or interrupting its sleep): with a descriptor ready / becoming ready, a timer expired / expiring, an immediate queued, idle
+    descriptors around; the following runs must find everything still registered"""
+    out = []
+    for mode in (1, 2):
+        for runop in ("run", "spin"):
+            for what in ("ready", "later", "timer0", "timer", "imm", "hup", "two", "nothing"):
+                for idle in (0, 1):
+                    P = Prog(3)
+                    a, b, t, i = P.slot([], 0), P.slot([], 0), P.slot([], 0), P.slot(["done"], 0)
+                    if idle:
+                        P.main.append("reg_sock %d 2 R" % P.slot([], 0))
+                    P.main.append("reg_sock %d 0 R" % a)
+                    if what == "ready":
+                        P.main.append("env 0 1")
+                    elif what == "later":
+                        P.main += ["sched 1500 0 1", "reg_timer %d 5 0" % t]
+                    elif what == "timer0":
+                        P.main += ["reg_timer %d 0 0" % t]
+                    elif what == "timer":
+                        P.main += ["reg_timer %d 0 2500" % t]
+                    elif what == "imm":
+                        P.main += ["reg_imm %d 3" % i]
+                    elif what == "hup":
+                        P.main += ["env 0 8"]
+                    elif what == "two":
+                        P.main += ["reg_sock %d 1 W" % b, "env 0 1", "env 1 2", "reg_timer %d 0 0" % t]
+                    else:
+                        P.main += ["reg_timer %d 0 1000" % t]
+                    P.main += ["sigintr %d" % mode, runop, "done" if runop == "spin" else "tick 0 1", "run", "tick 1 0", "run", "run"]
+                    out.append(P)
+    return out
 
 
 def big_program(rnd, nfd, nreg):
